@@ -89,6 +89,14 @@ def _val(v):
     if v is None:
         return "<None>"
     if isinstance(v, str):
+        if len(v) > 60:          # long names are logged as the token they were made from
+            k = len(v) - len(v.lstrip("a"))
+            if k >= 50:
+                return "@%d:%s" % (len(v), v[k:])
+            if v[0] == "1":
+                k = len(v) - len(v[1:].lstrip("a"))
+                if k >= 50:
+                    return "#%d:%s" % (len(v), v[k:])
         return v
     return "<%s>%r" % (type(v).__name__, v)
 
@@ -336,8 +344,19 @@ REL = {"NL": ("N", "L"), "LD": ("L", "D"), "DP": ("D", "P"), "DC": ("D", "C"), "
        "PQ": ("P", "Q"), "CW": ("C", "W")}
 
 
+def expand(nm):
+    """name tokens of the form "@N:c" stand for a name of N characters: N-1 times "a" then c"""
+    if isinstance(nm, str) and nm.startswith("@") and ":" in nm:
+        n, c = nm[1:].split(":", 1)
+        return "a" * (int(n) - len(c)) + c
+    if isinstance(nm, str) and nm.startswith("#") and ":" in nm:      # as @ but starting with a digit
+        n, c = nm[1:].split(":", 1)
+        return "1" + "a" * (int(n) - len(c) - 1) + c
+    return nm
+
+
 def _name(nm):
-    return None if nm == "" else nm
+    return None if nm == "" else expand(nm)
 
 
 def _pinobj(reg, r):
@@ -445,7 +464,7 @@ def _do(reg, c):
         elif op == "pop_item":
             e.pop(KEYMAP[c["key"]])
         elif op == "set_name":
-            e.name = c["val"]
+            e.name = expand(c["val"])
         elif op == "set_name_none":
             e.name = None
         else:
@@ -701,6 +720,20 @@ def _x_edif_rt(reg, c):
             new = None
             extra["reader_accepts"] = False
             extra["reader_error"] = "%s: %s" % (type(e).__name__, str(e)[:200])
+        n0 = reg.get("N", c["n"])
+        elems = {"L": list(n0.libraries)}
+        elems["D"] = [d for l in elems["L"] for d in l.definitions]
+        elems["P"] = [p for d in elems["D"] for p in d.ports]
+        elems["C"] = [x for d in elems["D"] for x in d.cables]
+        elems["I"] = [i for d in elems["D"] for i in d.children]
+        idc = {}
+        for k, lst in elems.items():
+            arr = [[] for _ in range(reg.count(k))]
+            for e in lst:
+                v = e["EDIF.identifier"] if "EDIF.identifier" in e else ""
+                arr[reg.id_of(e, k) - 1] = list(v) if isinstance(v, str) else ["?"]
+            idc[k] = arr
+        extra["idc"] = idc
         extra["policy_after"] = _val(sdn.namespace_manager.default)
         if extra["policy_after"] != "DEFAULT":      # a failed parse may leave the policy switched (C15): do not
             sdn.namespace_manager.default = "DEFAULT"   # let it distort the rest of this behaviour
